@@ -148,6 +148,10 @@ func (c *FnCtx) doCall(frame *Frame, st *State, in ssa.Instruction, call *ssa.Ca
 				if pt, ok := fa.X.Type().Underlying().(*types.Pointer); ok {
 					if stt, ok := pt.Elem().Underlying().(*types.Struct); ok {
 						key = "field." + stt.Field(fa.Field).Name()
+						if n, ok := types.Unalias(pt.Elem()).(*types.Named); ok && n.Obj().Pkg() != nil {
+							// "<pkg>.field.<name>": an assumed contract may be given for the call
+							key = n.Obj().Pkg().Path() + "." + key
+						}
 					}
 				}
 			}
@@ -191,6 +195,21 @@ func (c *FnCtx) doCall(frame *Frame, st *State, in ssa.Instruction, call *ssa.Ca
 	}
 	// unknown callee
 	c.abstracted[name] = true
+	if !frame.inlined && frame.contract != nil && len(frame.contract.UnknownMods) > 0 {
+		// the contract names state that calls to unknown code (function values, uncontracted
+		// callees) may change: havoc it after each such call
+		env := c.entryEnv(frame, st)
+		env.at = in.Block()
+		for _, m := range frame.contract.UnknownMods {
+			if m.Expr != nil {
+				if _, err := c.eval(env, m.Expr); err != nil {
+					continue // names a local that does not exist yet at this call
+				}
+			}
+			c.havocModItem(st, env, m, nil)
+			env.heap = st.heap
+		}
+	}
 	res := c.havocResult(st, rt, "call."+shortCallee(name))
 	k(st, res)
 }
